@@ -254,8 +254,11 @@ def state_fingerprint(obj):
 def isolated_execution(payload):
     """Runs in the clean room: fresh estimator from the given hyper-parameters, one fit / fit_predict / path on the given
     dataset of the pool; returns fingerprints of the fitted state and of the returned value."""
+    import io
+    import sys
     import warnings
     warnings.simplefilter("ignore")
+    sys.stdout = io.StringIO()          # verbose=True estimators print progress
     cfg, params, which, kind, args = payload["cfg"], payload["params"], payload["which"], payload["kind"], payload["args"]
     c = dict(cfg)
     c["params"] = params
